@@ -1,16 +1,79 @@
-# C09 -- Hashtable behaves as an ordered map (bounded histories; keys in a 6-value domain and the hash function symbolic)
-import itertools
+# C09 -- Hashtable behaves as an ordered map and its iterators survive any mutation
+# (bounded: a prefix of n distinct symbolic keys, then one operation with symbolic arguments, an optional live iterator, hash function chosen by the solver)
 import vrun
 from vrun import Job
 
-KINDS = {0: 'Put', 1: 'Remove', 2: 'MoveToFront', 3: 'MoveToBack', 4: 'Clear'}
+OPS = {0: 'Put', 1: 'Remove', 2: 'MoveToFront', 3: 'MoveToBack', 4: 'Clear', 5: 'MoveToBefore', 6: 'MoveToBehind', 7: 'MoveToPosition', 8: 'PutAtFront', 9: 'PutAtBack',
+       10: 'PutBefore', 11: 'PutBehind', 12: 'PutAtPosition', 13: 'RemoveFirst', 14: 'RemoveLast', 15: 'SortByKey', 16: 'SortByValue', 17: 'EnsureSize', 18: 'ShrinkToFit',
+       19: 'copy', 20: 'SwapContents', 21: 'GetOrPut', 22: 'GetAndMoveToFront', 23: 'GetAndMoveToBack', 24: 'MoveToTable', 25: 'PutOrRemove', 26: 'destroy', 27: 'assign', 28: 'queries', 99: 'none'}
+CLASSES = {0: 'Hashtable', 1: 'OrderedKeysHashtable', 2: 'OrderedValuesHashtable'}
+SORTED_OPS = (0, 1, 4, 13, 14, 17, 18, 19, 20, 21, 24, 25, 26, 27, 28)     # the positional operations "break auto-sorting" by documentation and are not applied to the sorting classes
+IT = {0: '', 1: ' it=fwd', 2: ' it=back'}
+
+
+def job(tier, n, op, it=0, init=0, cls=0, c5=0):
+    name = '%s n=%d %s%s%s%s' % (CLASSES[cls], n, OPS[op], IT[it], (' slots=%d' % init) if init else '', (' c=%d' % c5) if op in (4, 17, 25) else '')
+    return Job(name, 'B', 'harness/cpp/hashtable.cpp', 'harness_ht',
+               pdefs={'IR2C_P0': n, 'IR2C_P1': op, 'IR2C_P2': it, 'IR2C_P3': init, 'IR2C_P4': cls, 'IR2C_P5': c5}, extra_clang=['-fno-inline'], unwind=n + 4, loop_rules={'re:^(_ZL|harness_ht)': 10, 're:CreateEntriesArray|HashtableBaseI.*(D2Ev|5ClearEb)$': 22}, mode='func',
+               family='hashtable/' + OPS[op], object_bits=10, timeout=(240 if tier == 'quick' else 1500), mem_gb=6)
+
+
+MAXUNWIND = 12
 
 
 def jobs(tier):
     J = []
-    seqs = [(0, a, 99, 99) for a in range(5)] if tier == 'quick' else [(0, a, b, 99) for a in range(5) for b in range(5)]
-    for s in seqs:
-        J.append(Job('hashtable ' + ' ; '.join(KINDS[k] for k in s if k != 99), 'B', 'harness/cpp/hashtable.cpp', 'harness_ht',
-                     pdefs={'IR2C_P0': s[0], 'IR2C_P1': s[1], 'IR2C_P2': s[2], 'IR2C_P3': s[3], 'IR2C_P4': 0, 'IR2C_P5': 0}, extra_clang=['-fno-inline'], unwind=12, mode='func', family='hashtable',
-                     object_bits=10, timeout=(280 if tier == 'quick' else 1200), mem_gb=8))
+    def add(*a, **k): J.append(job(tier, *a, **k))
+    ns = (0, 1, 3) if tier == 'quick' else (0, 1, 2, 3, 4)
+    for n in ns:
+        for op in sorted(OPS):
+            if op == 99: continue
+            variants = [0]
+            if op == 4: variants = [0, 1]
+            if op == 17: variants = [n + 1, 9] if tier == 'quick' else [1, n, n + 1, 9, 20]
+            if op == 25: variants = [0, 1]
+            for c5 in variants:
+                add(n, op, c5=c5)
+                # a live iterator across the operation (forward and backward)
+                if n > 0 and op not in (19, 26, 27, 28):
+                    for it in ((1, 2) if (tier != 'quick' or n == 3) else (1,)): add(n, op, it=it, c5=c5)
+    # growth across a reallocation: the table is first shrunk to exactly n slots, so the operation under test has to grow it (with and without live iterators)
+    for n in ((2,) if tier == 'quick' else (1, 2, 3, 4)):
+        for op in (0, 8, 10, 12, 21, 25, 20, 24):
+            for it in (0, 1, 2):
+                add(n, op, it=it, init=n, c5=(1 if op == 25 else 0))
+    # the auto-sorting classes
+    for cls in (1, 2):
+        for n in ((0, 2, 3) if tier == 'quick' else (0, 1, 2, 3, 4)):
+            for op in SORTED_OPS:
+                for c5 in ([0, 1] if op == 25 else [n + 1] if op == 17 else [0]):
+                    add(n, op, cls=cls, c5=c5)
+                    if n > 0 and op in (0, 1, 4, 13, 14, 17, 21, 25) and (tier != 'quick' or n == 3): add(n, op, it=1, cls=cls, c5=c5)
+        add(2, 0, cls=cls, init=2); add(2, 0, cls=cls, init=2, it=1)
     return J
+
+
+META = {
+    'rule': 'one CBMC job per (table class, prefix length n, operation, live-iterator mode, initial slot count); inside a job the n prefix keys (pairwise distinct, domain of 6), '
+            'every value, the operation\'s key/other-key/position arguments, the number of steps the live iterator has taken, the arbitrary key and position of the final queries '
+            'and the HASH FUNCTION (a table of six 6-bit hash codes, so every collision pattern) are solver variables; the job proves: status/return values as documented, '
+            'size, forward and backward iteration order, Get/ContainsKey/GetWithDefault/GetKeyAt/IndexOfKey/first/last agree with an array-based ordered map; '
+            'the live iterator keeps its current pair, never yields a removed entry, yields nothing twice in the rest of its traversal, and (when the operation did not '
+            'reorder the surviving entries) continues with exactly the surviving entries in their order, skipping none. Non-trivial iff the end-of-harness witness is reachable.',
+    'bounds': 'prefix n in {0,1,3} (quick) / 0..4 (thorough) entries + 1 operation (+1 second table entry); key domain 6; values 2 bits; hash codes 6 bits; slot counts 7 (default), '
+              'n (forced growth to 2n) and EnsureSize targets up to 20; loop unwind 12 with unwinding assertions',
+    'outside': 'histories longer than prefix+1 operation (the prefix only uses Put); tables above 20 slots, hence the 8/16-bit and 16/32-bit index-width boundaries at 255 and 65535 slots '
+               '(each job would need arrays of that many entries); key/value types other than the harness POD key and uint32; Intersect/Remove(table)/Put(table); ImmutableHashtablePool; '
+               'allocation failure; the thread-safety fallback of iterators created on another thread',
+    'assumptions': ['operator new never fails', 'clang-14 -O1 -fno-inline lowering of Hashtable.h / HashtableIterator.h, translated by ir2c; validated per run by native differential execution',
+                    'hash codes restricted to 6 bits: the table uses a hash code only through (code % slots) and equality, and 64 > every slot count in the bound'],
+}
+
+
+def run(tier, seed):
+    J = jobs(tier)
+    seen = set(); dj = []
+    for j in J:
+        k = (j.pdefs['IR2C_P1'], j.pdefs['IR2C_P4'])
+        if k not in seen and j.pdefs['IR2C_P0'] == 3 and j.pdefs['IR2C_P2'] in (0, 1): seen.add(k); dj.append(j)
+    return vrun.run_property('C09', tier, seed, J, META, diff_jobs=dj[:40])
